@@ -169,6 +169,8 @@ func (w *World) MaterialiseTorn(k, n int, pol Policy) *World {
 	if op.Kind != "dbbatch" {
 		panic("vos: MaterialiseTorn on a non-batch entry")
 	}
-	nw.DB(op.Target).applyRaw(op.TearBatch(n))
+	torn := op.TearBatch(n)
+	nw.DB(op.Target).applyRaw(torn)
+	nw.baseDB[op.Target] = append(nw.baseDB[op.Target], torn)
 	return nw
 }
